@@ -134,8 +134,12 @@ def parse(h, tower=False, overrides=None) -> Node:
             return _generic(origin, args, h, tower, overrides)
         raise Unsupported(f'subscripted origin {origin!r}')
     if isinstance(h, type):
-        if h is tuple or h is list or True:
-            return Node('class', h, hint=h)
+        # a user class deriving from a *parameterised* container (class IntList(List[int])) is a
+        # generic whose pseudo-superclass constrains the items even when it is not subscripted
+        if h.__module__.startswith('bearverif') and any(typing.get_args(b) and not all(isinstance(a, typing.TypeVar) for a in typing.get_args(b))
+                                                       for b in getattr(h, '__orig_bases__', ())):
+            return _generic(h, (), h, tower, overrides)
+        return Node('class', h, hint=h)
     if isinstance(h, tuple) and h and all(isinstance(c, type) for c in h):
         return Node('union', kids=[Node('class', c) for c in h], hint=h)
     # bare typing aliases (typing.List, typing.Dict, ...) mean their origin class
